@@ -70,6 +70,9 @@ Model/RespCodec.vos Model/RespCodec.vok Model/RespCodec.required_vos: Model/Resp
 Model/Restore.vo Model/Restore.glob Model/Restore.v.beautified Model/Restore.required_vo: Model/Restore.v Base/Bytes.vo Base/Endian.vo Base/Dec.vo Model/RespCodec.vo Model/Digest.vo Model/Rdb.vo Model/Cupcake.vo
 Model/Restore.vio: Model/Restore.v Base/Bytes.vio Base/Endian.vio Base/Dec.vio Model/RespCodec.vio Model/Digest.vio Model/Rdb.vio Model/Cupcake.vio
 Model/Restore.vos Model/Restore.vok Model/Restore.required_vos: Model/Restore.v Base/Bytes.vos Base/Endian.vos Base/Dec.vos Model/RespCodec.vos Model/Digest.vos Model/Rdb.vos Model/Cupcake.vos
+Model/Rump.vo Model/Rump.glob Model/Rump.v.beautified Model/Rump.required_vo: Model/Rump.v Base/Bytes.vo Base/Dec.vo Model/RespCodec.vo Model/Filter.vo
+Model/Rump.vio: Model/Rump.v Base/Bytes.vio Base/Dec.vio Model/RespCodec.vio Model/Filter.vio
+Model/Rump.vos Model/Rump.vok Model/Rump.required_vos: Model/Rump.v Base/Bytes.vos Base/Dec.vos Model/RespCodec.vos Model/Filter.vos
 Model/Slot.vo Model/Slot.glob Model/Slot.v.beautified Model/Slot.required_vo: Model/Slot.v Base/Bytes.vo Base/Dec.vo Spec/Crc16.vo Spec/Slot.vo Gen/Crc16.vo Model/SlotKeys.vo
 Model/Slot.vio: Model/Slot.v Base/Bytes.vio Base/Dec.vio Spec/Crc16.vio Spec/Slot.vio Gen/Crc16.vio Model/SlotKeys.vio
 Model/Slot.vos Model/Slot.vok Model/Slot.required_vos: Model/Slot.v Base/Bytes.vos Base/Dec.vos Spec/Crc16.vos Spec/Slot.vos Gen/Crc16.vos Model/SlotKeys.vos
@@ -118,6 +121,9 @@ Proofs/RespProofs.vos Proofs/RespProofs.vok Proofs/RespProofs.required_vos: Proo
 Proofs/RestoreProofs.vo Proofs/RestoreProofs.glob Proofs/RestoreProofs.v.beautified Proofs/RestoreProofs.required_vo: Proofs/RestoreProofs.v Base/Bytes.vo Base/Endian.vo Base/Dec.vo Model/RespCodec.vo Model/Digest.vo Model/Rdb.vo Model/Cupcake.vo Model/Restore.vo
 Proofs/RestoreProofs.vio: Proofs/RestoreProofs.v Base/Bytes.vio Base/Endian.vio Base/Dec.vio Model/RespCodec.vio Model/Digest.vio Model/Rdb.vio Model/Cupcake.vio Model/Restore.vio
 Proofs/RestoreProofs.vos Proofs/RestoreProofs.vok Proofs/RestoreProofs.required_vos: Proofs/RestoreProofs.v Base/Bytes.vos Base/Endian.vos Base/Dec.vos Model/RespCodec.vos Model/Digest.vos Model/Rdb.vos Model/Cupcake.vos Model/Restore.vos
+Proofs/RumpProofs.vo Proofs/RumpProofs.glob Proofs/RumpProofs.v.beautified Proofs/RumpProofs.required_vo: Proofs/RumpProofs.v Base/Bytes.vo Base/Dec.vo Model/RespCodec.vo Model/Filter.vo Model/Rump.vo Base/Endian.vo Model/Digest.vo Model/Rdb.vo Model/Cupcake.vo Model/Restore.vo Proofs/RestoreProofs.vo
+Proofs/RumpProofs.vio: Proofs/RumpProofs.v Base/Bytes.vio Base/Dec.vio Model/RespCodec.vio Model/Filter.vio Model/Rump.vio Base/Endian.vio Model/Digest.vio Model/Rdb.vio Model/Cupcake.vio Model/Restore.vio Proofs/RestoreProofs.vio
+Proofs/RumpProofs.vos Proofs/RumpProofs.vok Proofs/RumpProofs.required_vos: Proofs/RumpProofs.v Base/Bytes.vos Base/Dec.vos Model/RespCodec.vos Model/Filter.vos Model/Rump.vos Base/Endian.vos Model/Digest.vos Model/Rdb.vos Model/Cupcake.vos Model/Restore.vos Proofs/RestoreProofs.vos
 Proofs/SlotProofs.vo Proofs/SlotProofs.glob Proofs/SlotProofs.v.beautified Proofs/SlotProofs.required_vo: Proofs/SlotProofs.v Base/Bytes.vo Base/Dec.vo Spec/Crc16.vo Spec/Slot.vo Gen/Crc16.vo Model/Slot.vo Proofs/SlotWitness.vo Proofs/SlotWitnessCheck.vo
 Proofs/SlotProofs.vio: Proofs/SlotProofs.v Base/Bytes.vio Base/Dec.vio Spec/Crc16.vio Spec/Slot.vio Gen/Crc16.vio Model/Slot.vio Proofs/SlotWitness.vio Proofs/SlotWitnessCheck.vio
 Proofs/SlotProofs.vos Proofs/SlotProofs.vok Proofs/SlotProofs.required_vos: Proofs/SlotProofs.v Base/Bytes.vos Base/Dec.vos Spec/Crc16.vos Spec/Slot.vos Gen/Crc16.vos Model/Slot.vos Proofs/SlotWitness.vos Proofs/SlotWitnessCheck.vos
@@ -178,6 +184,9 @@ Props/C14.vos Props/C14.vok Props/C14.required_vos: Props/C14.v Base/Bytes.vos B
 Props/C15.vo Props/C15.glob Props/C15.v.beautified Props/C15.required_vo: Props/C15.v Base/Bytes.vo Base/Dec.vo Spec/Crc16.vo Spec/Slot.vo Gen/Crc16.vo Model/Slot.vo Proofs/SlotProofs.vo
 Props/C15.vio: Props/C15.v Base/Bytes.vio Base/Dec.vio Spec/Crc16.vio Spec/Slot.vio Gen/Crc16.vio Model/Slot.vio Proofs/SlotProofs.vio
 Props/C15.vos Props/C15.vok Props/C15.required_vos: Props/C15.v Base/Bytes.vos Base/Dec.vos Spec/Crc16.vos Spec/Slot.vos Gen/Crc16.vos Model/Slot.vos Proofs/SlotProofs.vos
+Props/C16.vo Props/C16.glob Props/C16.v.beautified Props/C16.required_vo: Props/C16.v Base/Bytes.vo Model/Filter.vo Model/Rump.vo Model/Cupcake.vo Model/Restore.vo Proofs/RestoreProofs.vo Proofs/RumpProofs.vo
+Props/C16.vio: Props/C16.v Base/Bytes.vio Model/Filter.vio Model/Rump.vio Model/Cupcake.vio Model/Restore.vio Proofs/RestoreProofs.vio Proofs/RumpProofs.vio
+Props/C16.vos Props/C16.vok Props/C16.required_vos: Props/C16.v Base/Bytes.vos Model/Filter.vos Model/Rump.vos Model/Cupcake.vos Model/Restore.vos Proofs/RestoreProofs.vos Proofs/RumpProofs.vos
 Props/C18.vo Props/C18.glob Props/C18.v.beautified Props/C18.required_vo: Props/C18.v Base/Bytes.vo Model/Backlog.vo Proofs/BacklogProofs.vo
 Props/C18.vio: Props/C18.v Base/Bytes.vio Model/Backlog.vio Proofs/BacklogProofs.vio
 Props/C18.vos Props/C18.vok Props/C18.required_vos: Props/C18.v Base/Bytes.vos Model/Backlog.vos Proofs/BacklogProofs.vos
